@@ -208,6 +208,24 @@ def run_case(ctx, case):
         return _threaded(ctx, case)
     ctx.count("messages_roundtripped")
 
+    def consumed_then_again(back, decode, raw, cls, fields):
+        """The receiver consumes / rewrites the message it decoded; identical bytes arriving later (the same returned array
+        after each run of the same subroutine) must decode to the values the bytes carry, not to what the receiver left."""
+        for name in fields:
+            v = getattr(back, name, None)
+            if isinstance(v, list):
+                while v:
+                    v.pop(0)
+                v.append(-99)
+            elif isinstance(v, int):
+                try:
+                    setattr(back, name, (v ^ 0x2A) & 0x7F)
+                except (AttributeError, TypeError, ValueError):
+                    pass
+        ctx.count("decoded_again_after_receiver_consumed_the_first")
+        again = decode(raw)
+        check_fields(again, cls, fields, raw)
+
     def check_fields(msg, cls, fields, raw):
         if type(msg) is not cls:
             ctx.fail(case, f"{kind}: bytes decode as {type(msg).__name__}, not {cls.__name__}")
@@ -250,6 +268,8 @@ def run_case(ctx, case):
             ctx.count("reserialised_after_update")
             if again.app_id != case["app_id"] ^ 0x55:
                 ctx.fail(case, f"{kind}: after updating app_id the bytes still carry {again.app_id}")
+        if type(back) is cls:
+            consumed_then_again(back, M.deserialize_host_msg, raw, cls, fields)
         ctx.case(case, nontrivial=True)
         return
 
@@ -286,6 +306,8 @@ def run_case(ctx, case):
                 break
     if bytes(back) != raw:
         ctx.fail(case, f"{kind}: re-serialising the decoded message gives different bytes")
+    if type(back) is cls:
+        consumed_then_again(back, M.deserialize_return_msg, raw, cls, fields)
     if kind == "ret_arr" and case["values"]:
         # a message object whose fields are updated after it was framed once (len()/bytes()) must serialise
         # its *current* field values
